@@ -73,6 +73,8 @@ pub fn fixed_step_ref(p: &str, value: &str, o: &Opts) -> RefOut {
         if rmc == Some(HASANTA) {
             return match indep_for_sign(c) {
                 Some(v) => RefOut::Text(format!("{}{}", drop_last(p), v)),
+                // VOWEL SIGN VOCALIC RR has its independent vowel too (LETTER VOCALIC RR); finding F18
+                None if c == '\u{09C4}' => RefOut::Text(format!("{}\u{09E0}", drop_last(p))),
                 None => RefOut::Unspecified("rare sign has no matching independent vowel"),
             };
         }
